@@ -66,7 +66,11 @@ def build_all(log):
             gen = os.path.join(tools, name)
             if not name.startswith("gen_") or not os.path.isdir(gen):
                 continue
-            p = sh(["go", "run", ".", "-repo", REPO, "-out", os.path.join(COQ, "Gen")], cwd=gen, env=GOENV, check=False)
+            if name == "gen_callgraph":
+                cmd = ["go", "run", ".", "-dir", REPO, "-o", os.path.join(COQ, "Gen", "Gen_CallGraph.v")]
+            else:
+                cmd = ["go", "run", ".", "-repo", REPO, "-out", os.path.join(COQ, "Gen")]
+            p = sh(cmd, cwd=gen, env=GOENV, check=False)
             if p.returncode != 0:
                 status["gen_ok"] = False
             status["gen_log"] += "[%s] " % name + (p.stdout or b"").decode("utf8", "replace")[-1500:]
